@@ -5,14 +5,13 @@
 mod proto;
 #[path = "kinds.rs"]
 mod kinds;
+mod watch;
 
 use kinds::FakeError;
 use oauth2::basic::*;
 use oauth2::*;
 use proto::*;
 use std::cell::RefCell;
-use std::io::{BufRead, Write};
-use std::panic::{catch_unwind, AssertUnwindSafe};
 use std::time::Duration;
 
 type C<A, D, I, R, T> = Client<
@@ -367,17 +366,10 @@ fn run_line(line: &str) -> String {
     run(BasicClient::new(ClientId::new(id)), &ops)
 }
 
+fn panic_text(_e: Box<dyn std::any::Any + Send>) -> String {
+    "PANIC".to_string()
+}
+
 fn main() {
-    std::panic::set_hook(Box::new(|_| {}));
-    let stdin = std::io::stdin();
-    let stdout = std::io::stdout();
-    let mut out = std::io::BufWriter::new(stdout.lock());
-    for line in stdin.lock().lines() {
-        let line = line.unwrap();
-        let s = match catch_unwind(AssertUnwindSafe(|| run_line(&line))) {
-            Ok(s) => s,
-            Err(_) => "PANIC".to_string(),
-        };
-        writeln!(out, "{}", s).unwrap();
-    }
+    watch::serve(run_line, panic_text);
 }
